@@ -1,6 +1,9 @@
 from ..framework import Spec
-from ..ties_sys import sys_tie
+from ..ties_sys import sys_tie, scenario_tie
+from ..scenarios import gen_layout_expr_scenario
 from ..ties_layout import align_tie, zerountil_tie
 
 SPEC = Spec(pid='C02', coq_needs=['Base', 'Layout', 'LayoutProofs', 'Program', 'ProgramProofs', 'LayoutTie', 'Properties/C02'],
-            ties=[align_tie(), zerountil_tie(), sys_tie('C02')])
+            ties=[align_tie(), zerountil_tie(), sys_tie('C02'),
+                  # layout directives computed from address labels; .org N "GLOBAL" in a GLOBAL that does not start at 0
+                  scenario_tie('layout_exprs', gen_layout_expr_scenario, 150, 2500)])
